@@ -83,7 +83,7 @@ fn twin_case<T: Sc>(rng: &mut Rng, case: u64, out: &mut CaseOut) {
     let mut spec = g.spec;
     let n = spec.y.r;
     // weight classes of the property: positive, negative, mixed, zeros, wide magnitudes
-    let class = *rng.pick(&[WClass::Positive, WClass::Mixed, WClass::Zeros, WClass::Spread, WClass::Spread]);
+    let class = *rng.pick(&[WClass::Positive, WClass::Mixed, WClass::Zeros, WClass::Spread, WClass::Spread, WClass::Constant]);
     let keep = (spec.model.m() + spec.model.np() + 1).min(n);
     spec.w = gen_weights(rng, class, n, keep);
     if rng.chance(0.15) {
@@ -166,7 +166,7 @@ fn fit_twin_case<T: Sc>(rng: &mut Rng, case: u64, out: &mut CaseOut) {
     let mut spec = g.spec;
     let n = spec.y.r;
     let dof_ok = n > spec.model.m() + spec.model.np() + 1;
-    let class = *rng.pick(&[WClass::Positive, WClass::Mixed, WClass::Zeros]);
+    let class = *rng.pick(&[WClass::Positive, WClass::Mixed, WClass::Zeros, WClass::Constant]);
     spec.w = gen_weights(rng, class, n, (spec.model.m() + spec.model.np() + 2).min(n));
     spec.alpha0 = perturb_alpha(rng, &g.alpha_true, 0.1);
     let bspec = prescaled::<T>(&spec);
